@@ -275,7 +275,7 @@ def gen_year_edge_pair(rng, m):
     """Two points near (possibly different) year boundaries, and the exact duration (days, h, min, s) from the first
     to the second."""
     p = gen_year_edge_tp(rng, m)
-    y2 = p[1] + rng.choice([0, 0, 1, -1, 1, -1, 2, -2, 4, -4, 100, -400, rng.randint(-30, 30)])
+    y2 = p[1] + rng.choice([0, 0, 1, -1, 1, -1, 2, -2, 4, -4, 100, -400, 400, 400, 800, -800, 1200, rng.randint(-30, 30)])
     q = gen_year_edge_tp(rng, m, year=y2)
     secs = inst(m, q) - inst(m, p)
     sg = 1 if secs >= 0 else -1
